@@ -538,7 +538,7 @@ def scenario_second_instance(run, nseq, length):
         run.jobs.append((cfg, ops, None))
 
 
-def scenario_clone(run, nseq, length, backends=('plain', 'dictarch', 'file', 'dir')):
+def scenario_clone(run, nseq, length, backends=('plain', 'dictarch', 'file', 'dir', 'file-json')):
     """C20: dill round trip at a random prefix, then the same continuation on both in lock-step"""
     rng = run.rng
     for _ in range(nseq):
@@ -548,7 +548,12 @@ def scenario_clone(run, nseq, length, backends=('plain', 'dictarch', 'file', 'di
         km = rng.choice([('str', True, False), ('hash-md5', True, False), ('raw', True, False), ('default',), ('dill', True, False)])
         if module == 'safe' and km[0] == 'raw':
             km = ('str', True, False)
-        cfg = py_cfg(module, alg, rng.choice([1, 2, 3]), backend, km, purge=rng.random() < 0.25, ni=2)
+        variant = rng.choice(['plain', 'plain', 'frac', 'ignore_y', 'tol0'])
+        if backend in ('file-json', 'sql') and (km[0] in ('raw', 'dill', 'default') or variant == 'frac'):
+            km = ('str', True, False)
+        if backend == 'file-json':
+            variant = 'plain' if variant == 'frac' else variant   # (tuples do not survive JSON)
+        cfg = py_cfg(module, alg, rng.choice([1, 2, 3]), backend, km, purge=rng.random() < 0.25, ni=2, variant=variant)
         independent = backend in ('plain', 'dictarch')
         cfg['lockstep'] = independent and alg != 'rr'
         pre = cd.random_ops(rng, rng.randint(0, length), cfg, 7, 'mixed')
